@@ -25,6 +25,13 @@ class SymPatch:
             return True
         return bool(self.content)
 
+    def vc_len(self):
+        # Patch is a dict: len() counts the merge-patch keys only -- NOT the transformation fns
+        return If(self.content, 1, 0) if isinstance(self.content, SV) else (1 if self.content else 0)
+
+    def __len__(self):
+        return 1 if self.content else 0
+
 
 # =================================================================== process_resource_causes world
 def causes_world(vc, *, pressure_may_be_none=False, changing_may_raise=False):
@@ -242,7 +249,7 @@ def H2(vc):
 
 
 # ----------------------------------------------------------------------------------------------- H3
-@harness('H3', targets='kopf._core.reactor.processing.process_resource_causes', props=['C07'],
+@harness('H3', targets='kopf._core.reactor.processing.process_resource_causes', props=['C07', 'C08'],
          clauses=['changing_precondition', 'low_level_first', 'passes_through'],
          canaries=['canary.never_waits', 'canary.handlers_only_without_expectation'],
          trusted=['process_watching_cause: returns None, may add to the patch content',
@@ -321,7 +328,7 @@ def H4(vc):
 
 
 # ----------------------------------------------------------------------------------------------- H5
-@harness('H5', targets='kopf._core.reactor.processing._detect_causes', props=['C03', 'C04', 'C10', 'C14'],
+@harness('H5', targets='kopf._core.reactor.processing._detect_causes', props=['C03', 'C04', 'C05', 'C10', 'C14'],
          clauses=['old_is_cleared_stored', 'new_is_cleared_built', 'one_diff', 'initial_formula', 'reset_is_essential_change',
                   'detectors_gated', 'passes_through'],
          canaries=['canary.always_initial', 'canary.always_all_causes'],
@@ -351,7 +358,8 @@ def H5(vc):
         r.get_extra_fields = (lambda k: lambda resource: (vc.emit('get_extra_fields', k, resource), frozenset(extra[k]))[1])(k)
         regs[k] = r
     registry = Opaque('registry', _watching=regs['watching'], _spawning=regs['spawning'], _changing=regs['changing'])
-    stored = vc.fin('stored essence', [None, {'spec': {'x': 1}}])
+    # absent (never handled), EMPTY (handled; an object with no spec/labels: falsy but stored!), non-empty
+    stored = vc.fin('stored essence', [None, {}, {'spec': {'x': 1}}])
     stored = resolve(stored)
     built = {'spec': {'x': 2}}
     cleared = {}                        # id(input essence) -> the cleared essence returned for it
@@ -428,7 +436,7 @@ def H5(vc):
 
 
 # ----------------------------------------------------------------------------------------------- H6
-@harness('H6', targets='kopf._core.reactor.processing.process_resource_event', props=['C08', 'C17', 'C14'],
+@harness('H6', targets='kopf._core.reactor.processing.process_resource_event', props=['C03', 'C08', 'C17', 'C14'],
          clauses=['order', 'index_gate', 'apply_unless_deleted', 'patch_threaded', 'inside_throttled', 'recall_flag', 'passes_through'],
          canaries=['canary.always_applies', 'canary.never_forgets', 'canary.remaining_never_changes'],
          trusted=['throttlers.throttled by contract T2: yields should_run; swallows an Exception of the block iff should_run',
